@@ -8,6 +8,7 @@ R06b  every selector that reaches gethandler() went through slashnormalize(), an
       slashnormalize() returns a string starting with "/" on every path
 R06c  search strings / selectors are decoded with the transport's convention
       (UTF-8, surrogateescape) in every protocol
+R06e  the URL-based renderers link to this server exactly for entries without host and port
 R06d  each protocol maps the menu MIME type to its own listing type, totally
 Equality of rendered listings across protocols is not decided.
 """
@@ -55,6 +56,7 @@ def check(ctx, rep):
     rep.rule("R06a", "one directory walk shared by all protocols; every entry rendered and written once, unconditionally", floor=8)
     rep.rule("R06b", "selectors reaching handler selection are slash-normalised; slashnormalize() yields a leading '/'", floor=5)
     rep.rule("R06c", "request text is decoded as UTF-8/surrogateescape everywhere (percent-decoding, query strings, request bodies)", floor=6)
+    rep.rule("R06e", "URL-based renderers: relative link exactly when the entry names neither host nor port; otherwise entry.geturl()", floor=3)
     rep.rule("R06d", "menu MIME type mapped to the protocol's listing type; adjust function total", floor=4)
     pb = ctx.cls("protocols.base.BaseGopherProtocol")
     if pb is None:
@@ -105,7 +107,8 @@ def check(ctx, rep):
             w._budget = 100000
             outs = w.exec_block(loop.body, State())
             for kind, val, s in outs:
-                if kind not in ("next",):
+                if kind not in ("next", "continue"):
+                    # `continue` after the entry was rendered and written only skips the optional abstract lines (checked below)
                     problems.append(f"an iteration can end with `{kind}` (an entry would be skipped or the walk cut short)")
                     continue
                 rcalls = [e for e in s.events if e.kind == "call" and isinstance(e.node.func, ast.Attribute)
@@ -183,10 +186,11 @@ def check(ctx, rep):
             m = prog.resolve_method(P, mname)
             if m is None or m.cls is not P:
                 continue
-            assigns = [n for n in ast.walk(m.node) if isinstance(n, ast.Assign) and any(norm(t) == "self.selector" for t in n.targets)]
-            if not assigns:
+            from ..structure import assigns_attr, helper_calls, inline_attr_setters
+
+            if not assigns_attr(m, "self.selector") and not any(assigns_attr(g, "self.selector") for g, _, _, _ in helper_calls(prog, ctx.resolver, m, P)):
                 continue
-            w = Walker(prog, ctx.resolver, inline=lambda fn, t, d: False)
+            w = Walker(prog, ctx.resolver, inline=inline_attr_setters(prog, "self.selector"))
             problems = set()
             for p in w.run(m, P):
                 last = None
@@ -245,7 +249,13 @@ def check(ctx, rep):
             continue
         problems = []
         n_split = 0
-        for n in ast.walk(h.node):
+        from ..structure import bind_params, helper_calls
+
+        # handle() and the helpers it hands request text to
+        scopes = [(h, {})] + [(g, bind) for g, _, caller, bind in helper_calls(prog, ctx.resolver, h, P, depth=1)
+                              if g.name not in ("gethandler", "writedir", "filenotfound", "log", "headerslurp")]
+        for hf, bind in scopes:
+          for n in ast.walk(hf.node):
             if isinstance(n, ast.Call):
                 d = dotted(n.func) or ""
                 is_split = d.split(".")[-1] in ("urlparse", "urlsplit", "parse_qs", "parse_qsl") or \
@@ -257,13 +267,16 @@ def check(ctx, rep):
                 src = n.args[0] if d.split(".")[-1] in ("urlparse", "urlsplit", "parse_qs", "parse_qsl") and n.args else (n.func.value if isinstance(n.func, ast.Attribute) else None)
                 if src is None:
                     continue
-                full = expand_ast(src, h)
+                full = bind_params(expand_ast(src, hf), bind)
+                full = expand_ast(full, h) if bind else full
                 if any(isinstance(x, ast.Call) and (dotted(x.func) or "").split(".")[-1].startswith("unquote") for x in ast.walk(full)):
                     problems.append(f"`{norm(n)[:50]}` parses text that was already percent-decoded: an encoded '?', '#' or space in a name or query becomes a delimiter "
                                     "(the object/search string differs from what the other protocols see)")
         if n_split:
             rep.add("R06c", f"{h.qualname}: percent-decoding happens after structural splitting", not problems, ctx.where(h), "; ".join(sorted(set(problems))),
                     key=f"R06c|{h.qualname}|order")
+
+    link_target_obligations(ctx, rep, "R06e")
 
     # ------------------------------------------------------------------ R06d
     for P in protos:
@@ -327,3 +340,60 @@ def _listing_type(ctx, prog, P):
                             and isinstance(c.args[1], ast.Constant):
                         return c.args[1].value
     return None
+
+
+# ---------------------------------------------------------------------------- R06e
+def link_target_obligations(ctx, rep, rule="R06e"):
+    """A menu entry is a link to this server exactly when it names neither a host nor a port: that is what the Gopher
+    renderers fill in, so the URL-based renderers must take their relative-link branch (percent-encoded selector) in that
+    case and only then; any entry with a host or a port becomes an absolute gopher URL (entry.geturl)."""
+    prog = ctx.prog
+    pb = ctx.cls("protocols.base.BaseGopherProtocol")
+    QUOTES = ("quote", "quote_plus", "quote_from_bytes")
+    for P in ctx.protocol_classes():
+        ro = prog.resolve_method(P, "renderobjinfo")
+        if ro is None or ro.cls is not P:
+            continue
+        if not any(isinstance(n, ast.Call) and (dotted(n.func) or "").split(".")[-1] in QUOTES for n in ast.walk(ro.node)) and \
+                not any(isinstance(n, ast.Call) and isinstance(n.func, ast.Attribute) and n.func.attr == "geturl" for n in ast.walk(ro.node)):
+            from ..structure import helper_calls
+
+            hs = [g for g, _, _, _ in helper_calls(prog, ctx.resolver, ro, P, depth=2)]
+            if not any(isinstance(n, ast.Call) and (dotted(n.func) or "").split(".")[-1] in QUOTES for g in hs for n in ast.walk(g.node)):
+                continue
+        problems = set()
+        n_paths = 0
+        for host, port in ((None, None), ("gopher.example.org", None), (None, 7070), ("gopher.example.org", 7070)):
+            def cv(call, target, st, _h=host, _p=port):
+                if isinstance(call.func, ast.Attribute) and not call.args:
+                    if call.func.attr == "gethost":
+                        return Const(_h)
+                    if call.func.attr == "getport":
+                        return Const(_p)
+                if (dotted(call.func) or "") in ("re.match", "re.search", "re.fullmatch") and call.args \
+                        and isinstance(call.args[0], ast.Constant) and "URL:" in str(call.args[0].value):
+                    return Const(None)
+                return None
+
+            w = Walker(prog, ctx.resolver, call_value=cv, merge_loops=True,
+                       inline=lambda fn, t, d: d < 3 and t.bound_cls is not None and fn.name not in ("getrenderstr", "getimgtag", "renderabstract"))
+            for p in w.run(ro, P):
+                if p.kind == "raise":
+                    continue
+                n_paths += 1
+                quoted = any(e.kind == "call" and (dotted(e.node.func) or "").split(".")[-1] in QUOTES for e in p.events)
+                absolute = any(e.kind == "call" and isinstance(e.node.func, ast.Attribute) and e.node.func.attr == "geturl" for e in p.events)
+                what = f"host={host!r}, port={port!r}"
+                if host is None and port is None:
+                    if absolute or not quoted:
+                        problems.add(f"an entry without host and port ({what}) is not rendered as a relative link to this server")
+                else:
+                    if quoted and not absolute:
+                        problems.add(f"an entry with {what} is rendered as a relative link to this server: the other protocols point "
+                                     "the same entry at that host and port")
+                    elif not absolute:
+                        problems.add(f"an entry with {what} is not rendered through entry.geturl()")
+        if not n_paths:
+            problems.add("no path through the link renderer")
+        rep.add(rule, f"{ro.qualname}: relative link exactly for entries without host and port", not problems, ctx.where(ro),
+                "; ".join(sorted(problems)[:3]), key=f"{rule}|{ro.qualname}")
